@@ -59,6 +59,24 @@ func keyName(k int64) string {
 	return fmt.Sprintf("p%d", k)
 }
 
+// predicate partitions: key 2 matches "batches" case-insensitively and its requests carry "BATCHES"; key 7 is never a partition and its
+// requests carry "batcheſ" (long s: equal to "batches" under Unicode case folding, not under lower-casing - it matches nothing)
+func predMatcher(key int64) func(context.Context) bool {
+	if key == 2 {
+		return matchers.StringPredicateMatcher("batches", true)
+	}
+	return matchers.StringPredicateMatcher(keyName(key), false)
+}
+func predValue(key int64) string {
+	switch key {
+	case 2:
+		return "BATCHES"
+	case 7:
+		return "batche\u017f"
+	}
+	return keyName(key)
+}
+
 func NewSUT(c StratCfg) (*SUT, error) {
 	s := &SUT{Cfg: c, Reg: newRecRegistry()}
 	switch c.Kind {
@@ -71,7 +89,8 @@ func NewSUT(c StratCfg) (*SUT, error) {
 	case 3:
 		parts := map[string]*strategy.LookupPartition{}
 		for _, p := range c.Parts {
-			parts[keyName(p.Key)] = strategy.NewLookupPartitionWithMetricRegistry(keyName(p.Key), p.Pct, 1, s.Reg)
+			// (built with the total as its own limit: the strategy replaces it by the share)
+			parts[keyName(p.Key)] = strategy.NewLookupPartitionWithMetricRegistry(keyName(p.Key), p.Pct, int32(c.Total), s.Reg)
 			s.Live = append(s.Live, liveBin{key: p.Key, pct: p.Pct, id: s.nextID})
 			s.nextID++
 		}
@@ -83,7 +102,7 @@ func NewSUT(c StratCfg) (*SUT, error) {
 	default:
 		var parts []*strategy.PredicatePartition
 		for _, p := range c.Parts {
-			pp := strategy.NewPredicatePartitionWithMetricRegistry(keyName(p.Key), p.Pct, matchers.StringPredicateMatcher(keyName(p.Key), false), s.Reg)
+			pp := strategy.NewPredicatePartitionWithMetricRegistry(keyName(p.Key), p.Pct, predMatcher(p.Key), s.Reg)
 			parts = append(parts, pp)
 			s.Live = append(s.Live, liveBin{key: p.Key, pct: p.Pct, pred: pp, id: s.nextID})
 			s.nextID++
@@ -102,7 +121,7 @@ func (s *SUT) Ctx(key int64) context.Context {
 	case 3:
 		return context.WithValue(context.Background(), matchers.LookupPartitionContextKey, keyName(key))
 	case 4:
-		return context.WithValue(context.Background(), matchers.StringPredicateContextKey, keyName(key))
+		return context.WithValue(context.Background(), matchers.StringPredicateContextKey, predValue(key))
 	}
 	return context.Background()
 }
@@ -169,14 +188,15 @@ func (s *SUT) firstLive(key int64) int {
 func (s *SUT) AddPartition(key int64, pct float64) bool {
 	switch s.Cfg.Kind {
 	case 3:
-		ok := s.lookup.AddPartition(keyName(key), strategy.NewLookupPartitionWithMetricRegistry(keyName(key), pct, 1, s.Reg))
+		// the partition's own name need not be the key it is registered under; it is built with the current total as its own limit
+		ok := s.lookup.AddPartition(keyName(key), strategy.NewLookupPartitionWithMetricRegistry("added-"+keyName(key), pct, int32(s.Limit()), s.Reg))
 		if ok {
 			s.Live = append(s.Live, liveBin{key: key, pct: pct, id: s.nextID})
 			s.nextID++
 		}
 		return ok
 	case 4:
-		pp := strategy.NewPredicatePartitionWithMetricRegistry(keyName(key), pct, matchers.StringPredicateMatcher(keyName(key), false), s.Reg)
+		pp := strategy.NewPredicatePartitionWithMetricRegistry(keyName(key), pct, predMatcher(key), s.Reg)
 		ok := s.predicate.AddPartition(pp)
 		if ok {
 			s.Live = append(s.Live, liveBin{key: key, pct: pct, pred: pp, id: s.nextID})
@@ -244,14 +264,30 @@ func GenStratCfg(r *Rng, kind int) StratCfg {
 
 // ---- scripted limit double ----
 type scriptLimit struct {
-	est   int
-	calls [][]int64 // rtt, inflight, drop
-	onSet func()
+	est     int
+	next    int // the estimate the algorithm will report once it has processed its next sample (hasNext)
+	hasNext bool
+	calls   [][]int64 // rtt, inflight, drop
+	onSet   func()
+}
+
+// Script sets the estimate the double reports from its next OnSample on (an algorithm changes its estimate while processing a sample).
+func (l *scriptLimit) Script(v int) { l.next, l.hasNext = v, true }
+
+// Want is the estimate the double reports after its next sample.
+func (l *scriptLimit) Want() int {
+	if l.hasNext {
+		return l.next
+	}
+	return l.est
 }
 
 func (l *scriptLimit) EstimatedLimit() int                     { return l.est }
 func (l *scriptLimit) NotifyOnChange(core.LimitChangeListener) {}
 func (l *scriptLimit) OnSample(start, rtt int64, inflight int, drop bool) {
+	if l.hasNext {
+		l.est, l.hasNext = l.next, false
+	}
 	l.calls = append(l.calls, []int64{rtt, int64(inflight), B(drop)})
 	if l.onSet != nil {
 		l.onSet()
